@@ -450,3 +450,54 @@ func Main(m *testing.M) {
 	}
 	os.Exit(code)
 }
+
+// Bulk is a cheap recorder for hand-driven loops with millions of evaluations:
+// no JSON per case, the caller supplies a 64-bit key identifying the case.
+type Bulk struct {
+	name string
+	sr   *subRec
+}
+
+// NewBulk registers a bulk sub-check.
+func NewBulk(name, rule string, require []string, exhaustive bool) *Bulk {
+	sr := rec.sub(name, rule, require)
+	sr.Exhaustive = exhaustive
+	sr.Passed = true
+	return &Bulk{name, sr}
+}
+
+// Add records one evaluation; key must identify the case within this sub-check.
+func (b *Bulk) Add(class string, nt bool, key uint64) {
+	rec.mu.Lock()
+	defer rec.mu.Unlock()
+	b.sr.Evaluations++
+	b.sr.Requested++
+	b.sr.Classes[class]++
+	if nt {
+		b.sr.NonTrivial++
+		var kb [8]byte
+		binary.LittleEndian.PutUint64(kb[:], key)
+		rec.hashes = append(rec.hashes, hash64(b.name, kb[:]))
+		if len(rec.hashes)-rec.sorted > 1<<20 && len(rec.hashes) > 2*rec.sorted {
+			rec.compact()
+		}
+	}
+}
+
+// Sample stores an example case for the evidence file (at most 2 per class).
+func (b *Bulk) Sample(class string, c any) {
+	rec.mu.Lock()
+	defer rec.mu.Unlock()
+	if b.sr.samplePer[class] >= 2 || len(b.sr.Samples) >= 24 {
+		return
+	}
+	b.sr.samplePer[class]++
+	j, _ := json.Marshal(map[string]any{"class": class, "case": c})
+	b.sr.Samples = append(b.sr.Samples, j)
+}
+
+// Failed marks the bulk sub-check as failed.
+func (b *Bulk) Failed() { b.sr.Passed = false }
+
+// Hash64 exposes the FNV-1a hash used for distinct counting.
+func Hash64(b []byte) uint64 { return hash64("", b) }
